@@ -19,7 +19,7 @@ def run(chk):
     chk.assumptions += ["the slopes p'(x) are the unique solution of the (diagonally dominant) system - textbook; rounding NOT decided"]
     A = Rat.atom
     # R16.1 linear
-    for ext, rels in ((False, ('first', 'inside', 'last')), (True, ('below', 'above'))):
+    for ext, rels in ((True, ('first', 'inside', 'last', 'below', 'above')),):
         for rel in rels:
             o = run_linear(lib, ext, rel)
             if not chk.ob('R16.1', "Linear ext=%s q=%s computes" % (ext, rel), o.kind == 'ok' and len(o.m.writes) == 1, '', 'lin-%s-%s' % (ext, rel)):
@@ -29,7 +29,7 @@ def run(chk):
             v = o.m.writes[0][1].subs({str(data_atom('y', [i])): al + be * ax_atom('x', i), str(data_atom('y', [i + 1])): al + be * ax_atom('x', i + 1)})
             chk.ob('R16.1', "Linear (ext=%s, q %s): affine data alpha + beta x is returned as alpha + beta q" % (ext, rel), v == al + be * A('q'),
                    lib.body(LIN)['span'], 'lin-affine-%s-%s' % (ext, rel))
-    for ext, rx, ry in ((False, 'inside', 'inside'), (True, 'below', 'above'), (True, 'above', 'inside')):
+    for ext, rx, ry in ((True, 'inside', 'inside'), (True, 'below', 'above'), (True, 'above', 'inside')):
         bilinear_identity(chk, lib, 'R16.1', rx, ry, ext)
     # R16.2 rows
     for p in (S.SFK, S.CALC):
@@ -42,7 +42,7 @@ def run(chk):
     S.check_three_point(chk, lib, 'R16.2')
     S.check_hermite(chk, lib, 'R16.3', 'R16.3', 'R16.3')
     # extrapolated evaluation is the same expression (C06) - restated here for the spline
-    base = run_spline(lib, 'No', 'inside')
+    base = run_spline(lib, 'Yes', 'inside')
     for rel in ('below', 'above'):
         o = run_spline(lib, 'Yes', rel)
         same = base.kind == o.kind == 'ok' and o.m.writes[0][1] == base.m.writes[0][1]
